@@ -104,6 +104,15 @@ Theorem C17_run_total : forall f ops, Forall wf_op ops ->
 Proof. exact run_total. Qed.
 Print Assumptions C17_run_total.
 
+(* C05, memory: after any history the accumulator holds at most one packet copy per WritePacket call
+   and at most 184 payload bytes per such call *)
+Theorem C17_memory_bound : forall f ops, Forall wf_op ops ->
+  exists a, exec f new_acc ops = Ok a /\
+            (length (get_packets a) <= writes ops)%nat /\
+            (length (get_bytes a) <= 184 * writes ops)%nat.
+Proof. exact memory_bound. Qed.
+Print Assumptions C17_memory_bound.
+
 (* non-vacuity: unit start with 184 payload bytes, a continuation with a 100-byte adaptation
    field (83 payload bytes), threshold predicate "done when >= 200 bytes": done at the second
    packet, third refused *)
